@@ -119,20 +119,54 @@ class Obj(object):
         self.fields = dict(fields)
 
 
+class OptV(object):
+    """an optional object inside a symbolic sequence element: `present` is a Bool term, `value` the object it is when present
+    (spec mode only: `x is None` is Not(present); attribute access reads the value - contracts guard it with implies)"""
+    def __init__(self, present, value):
+        self.present, self.value = present, value
+
+
 class SymSeq(object):
-    """a Python list of objects of unknown length, read-only: length term + per-field columns (field f of element k is cols[f][k]).
-    cols[f] = ('int', array term) | ('int1', 2-D array term, lengths array term)"""
+    """a Python list of objects of unknown length, read-only: length term + per-field columns (field f of element k is column f at k).
+    column = ('int', array term) | ('int1', 2-D array term, lengths) | ('int2', 3-D array term, rows, cols)
+             | ('obj', cls, {field: column}) | ('opt', Bool array term, column)"""
     def __init__(self, cls, length, cols):
         self.cls, self.length, self.cols = cls, length, cols
 
-    def elem(self, k):
-        fields = {}
+    @staticmethod
+    def col_elem(c, k, presence=None, path=''):
+        kind = c[0]
+        if kind == 'int':
+            return z3.Select(c[1], k)
+        if kind == 'int1':
+            return AV(z3.Select(c[1], k), (z3.Select(c[2], k),), 'int')
+        if kind == 'int2':
+            return AV(z3.Select(c[1], k), (z3.Select(c[2], k), z3.Select(c[3], k)), 'int')
+        if kind == 'obj':
+            return Obj(c[1], {f: SymSeq.col_elem(cc, k, presence, path + f + '.') for f, cc in c[2].items()})
+        if kind == 'opt':
+            inner = SymSeq.col_elem(c[2], k, presence, path)
+            if presence is not None:
+                return inner if presence[path.rstrip('.')] else None      # materialised element: statically None or present
+            return OptV(z3.Select(c[1], k), inner)
+        raise ContractError('sequence column kind %r' % (kind,))
+
+    def elem(self, k, presence=None):
+        return Obj(self.cls, {f: SymSeq.col_elem(c, k, presence, f + '.') for f, c in self.cols.items()})
+
+    def opt_paths(self):
+        out = []
+
+        def walk(c, path):
+            if c[0] == 'opt':
+                out.append((path.rstrip('.'), c[1]))
+                walk(c[2], path)
+            elif c[0] == 'obj':
+                for f, cc in c[2].items():
+                    walk(cc, path + f + '.')
         for f, c in self.cols.items():
-            if c[0] == 'int':
-                fields[f] = z3.Select(c[1], k)
-            else:
-                fields[f] = AV(z3.Select(c[1], k), (z3.Select(c[2], k),), 'int')
-        return Obj(self.cls, fields)
+            walk(c, f + '.')
+        return out
 
 
 class BList(object):
@@ -563,6 +597,8 @@ class SpecEval(object):
         v = self.ev(n.value)
         if isinstance(v, AV) and n.attr == 'shape':
             return v.shape
+        if isinstance(v, OptV):
+            v = v.value
         if isinstance(v, Obj):
             if n.attr not in v.fields:
                 raise ContractError('object %s has no field %s' % (v.cls, n.attr))
@@ -773,6 +809,12 @@ def has_var(e, depth=0, cache=None):
 
 
 def compare(op, a, b):
+    if (isinstance(a, OptV) and b is None) or (isinstance(b, OptV) and a is None):
+        pres = a.present if isinstance(a, OptV) else b.present
+        if isinstance(op, (ast.Is, ast.Eq)):
+            return z3.Not(pres)
+        if isinstance(op, (ast.IsNot, ast.NotEq)):
+            return pres
     if isinstance(a, AV) or isinstance(b, AV):
         raise ContractError('array comparison in spec: use eq1/same')
     if a is None or b is None:
